@@ -25,7 +25,7 @@ type freeResult struct {
 // and rebuilds an equivalent sequential history for the model.
 func runFree(c *Case, e *evalCtx) *freeResult {
 	f := c.Free
-	cl := &recClient{mode: c.Client}
+	cl := &recClient{mode: c.Client, slow: time.Duration(f.SlowUs) * time.Microsecond}
 	snd := zip.NewForVerif(cl, toVS(c.Settings))
 	if f.Conf != nil {
 		snd.ApplyConfig(f.Conf.toConf()) // before the goroutine exists: settings are not synchronised
@@ -33,13 +33,57 @@ func runFree(c *Case, e *evalCtx) *freeResult {
 	st := fromVS(snd.SettingsForVerif())
 	res := &freeResult{}
 
+	// which records did the bounded queue refuse?  (unchanged semantics: a full queue refuses the
+	// newcomer and keeps everything it accepted)
 	var dmu sync.Mutex
 	dropped := map[int]bool{}
-	snd.Queue.Failed = func(v interface{}) {
-		if p, ok := v.(*pack.LogSinkPack); ok {
-			dmu.Lock()
-			dropped[int(p.Line)] = true
-			dmu.Unlock()
+	markDropped := func(id int) {
+		dmu.Lock()
+		dropped[id] = true
+		dmu.Unlock()
+	}
+	if f.Accept == "failed" || f.Accept == "" {
+		snd.Queue.Failed = func(v interface{}) {
+			if p, ok := v.(*pack.LogSinkPack); ok {
+				markDropped(int(p.Line))
+			}
+		}
+	}
+	hand := func(r *Rec) {
+		if f.Accept == "put" {
+			if !snd.Queue.Put(r.P) { // exactly what Add does, keeping the answer
+				markDropped(r.Spec.ID)
+			}
+			return
+		}
+		snd.Add(r.P)
+	}
+	var stalledOrder []int // "stalled": the order in which the records were added
+	if f.Accept == "stalled" {
+		// round-robin over the producers, everything before the consumer exists
+		capacity := snd.Queue.GetCapacity()
+		n := 0
+		for i := 0; ; i++ {
+			any := false
+			for _, items := range f.Producers {
+				if i < len(items) {
+					any = true
+					id := items[i].R.ID
+					stalledOrder = append(stalledOrder, id)
+					if capacity <= 0 || n < capacity {
+						n++
+					} else {
+						dropped[id] = true
+					}
+					snd.Add(e.recs[id].P)
+				}
+			}
+			if !any {
+				break
+			}
+		}
+		if snd.Queue.Size() != n {
+			e.prop("queue:size", "%d records added to a queue of capacity %d before the consumer started: it holds %d, not %d", len(stalledOrder), capacity, snd.Queue.Size(), n)
 		}
 	}
 	directSet := map[int]bool{}
@@ -54,11 +98,14 @@ func runFree(c *Case, e *evalCtx) *freeResult {
 	done := snd.StartForVerif()
 	var wg sync.WaitGroup
 	for _, items := range f.Producers {
+		if f.Accept == "stalled" {
+			break
+		}
 		wg.Add(1)
 		go func(items []FreeItem) {
 			defer wg.Done()
 			for _, it := range items {
-				snd.Add(e.recs[it.R.ID].P)
+				hand(e.recs[it.R.ID])
 				if it.DelayUs > 0 {
 					time.Sleep(time.Duration(it.DelayUs) * time.Microsecond)
 				}
@@ -181,7 +228,7 @@ func runFree(c *Case, e *evalCtx) *freeResult {
 				e.prop("emit:duplicate", "record %d emitted %d times", id, n)
 			}
 			if dropped[id] {
-				e.prop("emit:dropped-record-emitted", "record %d was refused by the queue and emitted nevertheless", id)
+				e.prop("emit:refused-record-emitted", "record %d was refused by the full queue (capacity %d) and emitted nevertheless", id, snd.Queue.GetCapacity())
 			}
 		}
 		lost := 0
@@ -204,9 +251,11 @@ func runFree(c *Case, e *evalCtx) *freeResult {
 				}
 			}
 		}
-		if lost > 0 {
+		if lost > 0 && snd.Queue.Size() >= lost {
 			// all producers had returned before the stop: nothing may be left behind
 			e.prop("stop:queued-records-lost", "%d records accepted by the queue before the stop were never emitted (queue holds %d after the loop returned)", lost, snd.Queue.Size())
+		} else if lost > 0 {
+			e.prop("queue:accepted-record-lost", "%d records accepted by the queue (capacity %d) were never emitted and are not in the queue either (it holds %d)", lost, snd.Queue.GetCapacity(), snd.Queue.Size())
 		}
 		if !eqInts(directIDs, directWant) {
 			e.prop("SendDirect:not-exactly-once-in-order", "SendDirect batches %s emitted %s", idsStr(directWant), idsStr(directIDs))
@@ -227,12 +276,26 @@ func runFree(c *Case, e *evalCtx) *freeResult {
 		first = false
 		sb.WriteString(s)
 	}
-	for _, ids := range sharedPacks {
-		for _, id := range ids {
+	if f.Accept == "stalled" {
+		// the exact history: every Add (the model refuses the overflow itself), then one loop
+		// iteration per accepted record, the idle flush, the stop
+		for _, id := range stalledOrder {
 			put("a:" + e.recs[id].line())
-			put("s")
+		}
+		for _, id := range stalledOrder {
+			if !dropped[id] {
+				put("s")
+			}
 		}
 		put("s")
+	} else {
+		for _, ids := range sharedPacks {
+			for _, id := range ids {
+				put("a:" + e.recs[id].line())
+				put("s")
+			}
+			put("s")
+		}
 	}
 	put("x")
 	for _, b := range f.Direct {
